@@ -108,6 +108,9 @@ Section Compile.
   Definition opt_cons {A} (o : option A) (l : list A) : list A := match o with Some a => a :: l | None => l end.
   Definition or_null_t (t : bytes) : bytes := match t with [] => B "null" | _ => t end.
   Definition or_null_a (a : option targ) : targ := match a with Some a => a | None => AIdent (B "null") end.
+  (* quoteLiteral: a literal part of an interpolated string; an empty part is left out *)
+  Definition qlit (lit : bytes) : option bytes := match lit with [] => Some [] | _ => goquote lit end.
+  Definition lit_arg (lit : bytes) : list targ := match lit with [] => [] | _ => [AStr lit] end.
 
   Definition dot_ir (la : option targ) (name : bytes) : option targ :=
     match la with
@@ -117,6 +120,48 @@ Section Compile.
     | Some (AIdent f) => Some (AChain (AIdent f) [name])
     | _ => None
     end.
+
+  (* the Text arm of buildNode = quoteDelimiters of pug_parser.go (also used for buffered string literals) *)
+  Definition quote_text (s : bytes) : bytes :=
+    let s1 := replace_all (B "{{") (B "--{{--") s in
+    let s2 := replace_all (B "}}") (B "--}}--") s1 in
+    let s3 := replace_all (B "--{{--") (B "{{""{{""}}") s2 in
+    let s4 := replace_all (B "--}}--") (B "{{""}}""}}") s3 in
+    (* a single brace directly before one of the quoting actions would form a delimiter with its braces *)
+    let s5 := replace_all (B "{{{") (B "{{""{""}}{{") s4 in
+    (* a trailing brace would form a delimiter with what follows *)
+    match rev s5 with
+    | c :: r => if Ascii.eqb c "{" then rev r ++ B "{{""{""}}" else s5
+    | [] => s5
+    end.
+
+  Definition lit_open : tok := TAct (B "{{""{{""}}") false false (AcPipe ([], [[AStr (B "{{")]])).
+  Definition lit_close : tok := TAct (B "{{""}}""}}") false false (AcPipe ([], [[AStr (B "}}")]])).
+  Definition lit_brace : tok := TAct (B "{{""{""}}") false false (AcPipe ([], [[AStr (B "{")]])).
+
+  (* token view of quote_text's output: literal pieces and the two string actions *)
+  Fixpoint text_toks_fuel (fuel : nat) (s acc : bytes) : list tok :=
+    let flush := match acc with [] => [] | _ => [TText (rev acc)] end in
+    match fuel with
+    | O => flush
+    | S f =>
+      match s with
+      | [] => flush
+      | c :: r =>
+        if prefixb (B "{{""{{""}}") s then flush ++ lit_open :: text_toks_fuel f (skipn 8 s) []
+        else if prefixb (B "{{""}}""}}") s then flush ++ lit_close :: text_toks_fuel f (skipn 8 s) []
+        else if prefixb (B "{{""{""}}") s then flush ++ lit_brace :: text_toks_fuel f (skipn 7 s) []
+        else text_toks_fuel f r (c :: acc)
+      end
+    end.
+  Definition text_toks (s : bytes) : list tok := text_toks_fuel (S (length s)) s [].
+
+  (* a Text node: modelled when what is left after quoting contains no stray delimiter *)
+  Definition ctext (s : bytes) : option (list tok) :=
+    let q := quote_text s in
+    let ts := text_toks q in
+    if forallb (fun t => match t with TText x => negb (has_delim x) | _ => true end) ts
+    then Some ts else None.
 
   (* renderExpression(expr, wrap=false, dot): text and the argument it parses to
      ([None] argument: the text is empty, as for a null literal) *)
@@ -147,26 +192,21 @@ Section Compile.
     | JNumF t => Some (t, Some (ANumF t))
     | JStr s => match goquote s with Some q => Some (q, Some (AStr s)) | None => None end
     | JTpl parts =>
+      (* interpolate (after repair F-C01-h): the literal parts as %q strings (an empty part is left out),
+         the code parts compiled; [lit] = the literal part read so far *)
       let go :=
-        fix go (ps : list (bytes + jexpr)) : option (bytes * list targ) :=
+        fix go (lit : bytes) (ps : list (bytes + jexpr)) : option (bytes * list targ) :=
           match ps with
-          | [] => Some ([], [])
-          | inl s :: r =>
-            match go r with
-            | Some (t, a) => Some (s ++ t, match s with [] => a | _ => AStr s :: a end)
-            | None => None
-            end
+          | [] => match qlit lit with Some q => Some (q, lit_arg lit) | None => None end
+          | inl s :: r => go (lit ++ s) r
           | inr x :: r =>
-            match carg true x, go r with
-            | Some (xt, Some xa), Some (t, a) =>
-              (* an empty string literal inside the interpolation is deleted by the `""` clean-up: not modelled *)
-              if containsb (B """""") xt then None else Some (B """ " ++ xt ++ B " """ ++ t, xa :: a)
-            | _, _ => None
+            match qlit lit, carg true x, go [] r with
+            | Some q, Some (xt, Some xa), Some (t, a) => Some (q ++ sp ++ xt ++ sp ++ t, lit_arg lit ++ xa :: a)
+            | _, _, _ => None
             end
           end in
-      match go parts with
-      | Some (t, a) =>
-        Some (replace_all (B """""") [] (B "(__str """ ++ t ++ B """)"), Some (call (B "__str") a))
+      match go [] parts with
+      | Some (t, a) => Some (B "(__str " ++ t ++ B ")", Some (call (B "__str") a))
       | None => None
       end
     | JBool b => Some ((if b then B "true" else B "false"), Some (ABool b))
@@ -275,7 +315,9 @@ Section Compile.
   (* renderExpression(expr, wrap=true, dot=true) under p.rawmode = raw *)
   Definition cwrap (raw : bool) (e : jexpr) : option (list tok) :=
     match e with
-    | JStr s => if has_delim (escape s) then None else Some [TText (escape s)]
+    | JStr s =>
+      (* written as text through quoteDelimiters (after repair F-C06-f); an empty literal stays one empty text *)
+      match ctext (escape s) with Some [] => Some [TText []] | o => o end
     | JNum z => Some [TText (show_Z z)]
     | JNumF t => Some [TText t]
     | JBool b => Some [TText (if b then B "true" else B "false")]
@@ -384,48 +426,6 @@ Section Compile.
          | _, _ => None
          end
        end) stmts.
-
-  (* the Text arm of buildNode *)
-  Definition quote_text (s : bytes) : bytes :=
-    let s1 := replace_all (B "{{") (B "--{{--") s in
-    let s2 := replace_all (B "}}") (B "--}}--") s1 in
-    let s3 := replace_all (B "--{{--") (B "{{""{{""}}") s2 in
-    let s4 := replace_all (B "--}}--") (B "{{""}}""}}") s3 in
-    (* a single brace directly before one of the quoting actions would form a delimiter with its braces *)
-    let s5 := replace_all (B "{{{") (B "{{""{""}}{{") s4 in
-    (* a trailing brace would form a delimiter with what follows *)
-    match rev s5 with
-    | c :: r => if Ascii.eqb c "{" then rev r ++ B "{{""{""}}" else s5
-    | [] => s5
-    end.
-
-  Definition lit_open : tok := TAct (B "{{""{{""}}") false false (AcPipe ([], [[AStr (B "{{")]])).
-  Definition lit_close : tok := TAct (B "{{""}}""}}") false false (AcPipe ([], [[AStr (B "}}")]])).
-  Definition lit_brace : tok := TAct (B "{{""{""}}") false false (AcPipe ([], [[AStr (B "{")]])).
-
-  (* token view of quote_text's output: literal pieces and the two string actions *)
-  Fixpoint text_toks_fuel (fuel : nat) (s acc : bytes) : list tok :=
-    let flush := match acc with [] => [] | _ => [TText (rev acc)] end in
-    match fuel with
-    | O => flush
-    | S f =>
-      match s with
-      | [] => flush
-      | c :: r =>
-        if prefixb (B "{{""{{""}}") s then flush ++ lit_open :: text_toks_fuel f (skipn 8 s) []
-        else if prefixb (B "{{""}}""}}") s then flush ++ lit_close :: text_toks_fuel f (skipn 8 s) []
-        else if prefixb (B "{{""{""}}") s then flush ++ lit_brace :: text_toks_fuel f (skipn 7 s) []
-        else text_toks_fuel f r (c :: acc)
-      end
-    end.
-  Definition text_toks (s : bytes) : list tok := text_toks_fuel (S (length s)) s [].
-
-  (* a Text node: modelled when what is left after quoting contains no stray delimiter *)
-  Definition ctext (s : bytes) : option (list tok) :=
-    let q := quote_text s in
-    let ts := text_toks q in
-    if forallb (fun t => match t with TText x => negb (has_delim x) | _ => true end) ts
-    then Some ts else None.
 
   Definition is_void (name : bytes) : bool := mem name self_closing_tags.
 
